@@ -55,7 +55,8 @@ def handle : List String → Option String
       (cvOf (parseTable conv)) (cvOf Iodata.Gen.Conventions.molden) (parseShells shells) (parseInts coeffs)
     some (showShells r.1 ++ "|" ++ showInts r.2)
   | ["mkl", shells, conv, coeffs] =>
-    let r := mklDump (cvOf (parseTable conv)) (cvOf Iodata.Gen.Conventions.molekel) (parseShells shells) (parseInts coeffs)
+    let r := (if Iodata.Gen.Wf.mklSeparatorsPerCentre then moldenDumpSorted else mklDump)
+      (cvOf (parseTable conv)) (cvOf Iodata.Gen.Conventions.molekel) (parseShells shells) (parseInts coeffs)
     some (showShells r.1 ++ "|" ++ showInts r.2)
   | ["mklirr", na, nb, irreps] =>
     some (showInts ((mklBetaIrreps Iodata.Gen.Wf.mklBetaIrrepsUseNorbb na.toNat! nb.toNat!
